@@ -46,6 +46,9 @@ def gen(g, count):
         recs = []
         for _ in range(r.randint(1, 5)):
             nm = b'/'.join(g.word(2, 6, 0.15).encode() for _ in range(r.randint(1, 3)))
+            if r.random() < 0.12:
+                # characters that HTML, shells or spreadsheets escape: a report shows them as they are, in every report
+                nm += r.choice([b"&co", b"'s", b'+x', b'<b>', b'"q"x', b'&amp;', b'=1', b'%d', b'`x`', b'$x']) 
             if nm not in recs and nm not in leaves:
                 recs.append(nm)
         # keep food names prefix-free so that balance leaves are the foods
